@@ -290,6 +290,38 @@ func VerifC07Preload() {
 	verifrt.Reach("end")
 }
 
+// VerifC07Navigation: longer sequences over the navigation keys only - move,
+// open the highlighted item as a new page, walk the history - so that the
+// same item is opened more than once and pages are revisited after moving on
+// them ("on every history").
+func VerifC07Navigation() {
+	tag := 0
+	mk := func() *refItem { tag++; return &refItem{tag: tag} }
+	centre := mk()
+	centre.ancestors = []*refItem{mk()}
+	centre.replies = []*refItem{mk(), mk()}
+	made := map[*refItem]*vItem{}
+	log := &frameLog{}
+	s := newTestState(30, 8, log)
+	settleState = s
+	r := &refUI{mode: normal}
+	s.m.Lock()
+	s.switchTo(pub.Tangible(centre.realise(made)))
+	s.m.Unlock()
+	r.pages = append(r.pages, &refPage{thread: centre})
+	verifrt.Settle()
+	c07Compare(s, r, "initial")
+	for i := 0; i < verifrt.Param("keys", 4); i++ {
+		b := verifrt.Byte("key")
+		verifrt.Assume(verifrt.InSet(b, "jk hlg"))
+		s.Update(b)
+		verifrt.Settle()
+		r.key(b)
+		c07Compare(s, r, "after-key")
+	}
+	verifrt.Reach("end")
+}
+
 // VerifC07Keys: key sequences over a thread page and a list (or empty) page.
 func VerifC07Keys() {
 	centre, list := c07World()
